@@ -30,9 +30,9 @@ Definition rhll_step (st : store * list (option rhll)) (op : tok) : (store * lis
   | [TN 2; TN i; TN wc; TN wr; TN c] =>
       match get_inst hs i with
       | Some h =>
-          match rhll_hmean_floor s h with
+          match rhll_hmean_num s h with
           | Some hm =>
-              let r := hll_count_check (rh_m h) hm 1 (negb (wc =? 0)) (negb (wr =? 0)) c in
+              let r := hll_count_check (rh_m h) hm (2 ^ 255) (negb (wc =? 0)) (negb (wr =? 0)) c in
               (st, if r =? 2 then T_WILD else TN r)
           | None => (st, tu (@Err unit E_GENERIC))
           end
